@@ -45,6 +45,11 @@ def run(tier, replay=None, pid=PID, theorems=THEOREMS, oracle=the_oracle, ks=(1,
         res.violation("harness crashed / sanitizer report", {"kind": "crash", "stderr": err[-3000:]}); return res.finish()
     verdicts = run_driver(out) if lean_ok and rc == 0 else []
     oks, diffs, viols = parse_driver(verdicts)
+    # more than 1024 / 16384 dropped edges (sequential and TBB entry points under real oneTBB, 16 threads): oracle only
+    big_bad, big_runs, big_cycles = ([], 0, 0)
+    if not replay and pid == "C05":
+        big_bad, big_runs, big_cycles = run_many_dropped(binary, r, tier, ["signed", "signed_tbb", "fvs_tbb", "iso_tbb"], lambda v: [16] if v.endswith("_tbb") else [])
+    res.coverage["many_dropped_edges_family"] = {"runs": big_runs, "cycles": big_cycles}
     res.coverage.update({"evaluations": len(cases), "distinct_nontrivial": distinct_nontrivial(cases, lambda c: len(c[1]) - c[0] + components(c[0], c[1]) >= 1),
         "rule": "graphs as in C16 x {approx_mcb_sva_signed, _fvs_trees, _iso_trees} x k in %s; non-trivial = cycle space dimension >= 1" % (list(ks),),
         "traces_validated_against_impl": len(oks), "spanner_cycles_total": sum(int(w[5]) for w in oks), "edge_cycles_total": sum(int(w[6]) for w in oks),
@@ -52,7 +57,10 @@ def run(tier, replay=None, pid=PID, theorems=THEOREMS, oracle=the_oracle, ks=(1,
         "runs_whose_exact_phase_on_the_spanner_was_replayed_literally": sum(int(w[9]) for w in oks if len(w) > 9),
         "k_histogram": {str(k): sum(1 for m in meta.values() if m[1] == k) for k in ks},
         "samples": [{"n": c[0], "edges": c[1], "variant": meta[k][0], "k": meta[k][1]} for k, c in list(cases.items())[-2:]], **stats(cases)})
-    if bad or viols:
+    if big_bad:
+        j, why, c, a = big_bad[0]
+        res.violation("%s approx %s: %s" % (pid, a, why), {"kind": "graph-approx-big", "n": c[0], "edges": c[1] if len(c[1]) < 4000 else "complete graph K%d, see generator many_dropped_cases" % c[0], "args": a, "why": why, "count": len(big_bad)})
+    elif bad or viols:
         cid, why = bad[0] if bad else (viols[0][1], " ".join(viols[0][2:]))
         v, k = meta[cid]
         def still_bad(c):
